@@ -52,6 +52,6 @@ Props/C04.vos Props/C04.vok Props/C04.required_vos: Props/C04.v Base/Plan.vos Ba
 Props/C09.vo Props/C09.glob Props/C09.v.beautified Props/C09.required_vo: Props/C09.v Gen/Effects.vo Model/Effects.vo Proofs/Effects.vo
 Props/C09.vio: Props/C09.v Gen/Effects.vio Model/Effects.vio Proofs/Effects.vio
 Props/C09.vos Props/C09.vok Props/C09.required_vos: Props/C09.v Gen/Effects.vos Model/Effects.vos Proofs/Effects.vos
-Props/C20.vo Props/C20.glob Props/C20.v.beautified Props/C20.required_vo: Props/C20.v Base/Layout.vo Spec/VmTar.vo Model/VmTar.vo Proofs/VmTar.vo
-Props/C20.vio: Props/C20.v Base/Layout.vio Spec/VmTar.vio Model/VmTar.vio Proofs/VmTar.vio
-Props/C20.vos Props/C20.vok Props/C20.required_vos: Props/C20.v Base/Layout.vos Spec/VmTar.vos Model/VmTar.vos Proofs/VmTar.vos
+Props/C20.vo Props/C20.glob Props/C20.v.beautified Props/C20.required_vo: Props/C20.v Base/Layout.vo Spec/VmTar.vo Model/VmTar.vo Proofs/VmTar.vo Gen/VmTar.vo
+Props/C20.vio: Props/C20.v Base/Layout.vio Spec/VmTar.vio Model/VmTar.vio Proofs/VmTar.vio Gen/VmTar.vio
+Props/C20.vos Props/C20.vok Props/C20.required_vos: Props/C20.v Base/Layout.vos Spec/VmTar.vos Model/VmTar.vos Proofs/VmTar.vos Gen/VmTar.vos
